@@ -48,12 +48,15 @@ func c18hook(point string, who any, n int64) {
 	r := v.(*c18rec)
 	switch point {
 	case "rr.tick":
+		r.add(rEv{K: "h.tick", A: n / 1000, C: r.us()})
 		if r.gate != nil {
 			r.once.Do(func() { close(r.atTick) })
 			<-r.gate
 		}
 	case "rr.exit":
 		r.add(rEv{K: "exit", C: r.us()})
+	case "rr.restart", "rr.next", "rr.ticked", "rr.done":
+		r.add(rEv{K: "h." + point[3:], C: r.us()})
 	}
 }
 
